@@ -32,4 +32,10 @@ def main():
         if bad:
             print(p.stdout[-2000:])
             ok = False
+    # the proof modules are checked by tlapm itself (the checks of C05, C09, C12, C16 run it); here only: are the tools there
+    import shutil
+    for tool in ("tlapm", "apalache-mc"):
+        print(f"{tool}: " + (shutil.which(tool) or "NOT FOUND (the checks record 'not run' and do not rely on it)"))
+    for m in sorted(glob.glob(os.path.join(VERIF, "spec", "tlaps", "*.tla"))):
+        print("proof module " + os.path.relpath(m, VERIF))
     return 0 if ok else 2
